@@ -6,7 +6,8 @@ import EpyVerif.Lemmas.UFSite
 Model: `Model/UF.lean` (`newmanziff.py`: the `_components` array with path compression, `join`, `occupy`, and the sampling
 loop as repaired by the fix commit).  `Conn E a b` is connectivity in the working network whose edges are `E`.
 Bond percolation is proved directly; site percolation is proved by reduction to it (unoccupied sites viewed as singleton
-components, `UF.alpha`); the `gcc` / `ncomponents` counters of the site variant are tied to the code by replay only (PARTIAL).
+components, `UF.alpha`); the `gcc` / `ncomponents` counters of the site variant are carried along through the same reduction (`UF.SRel`,
+`site_counters_true`).
 -/
 set_option linter.unusedSectionVars false
 open UF
@@ -91,20 +92,22 @@ def siteAll (N : Nat) (un : Int) (adj : Nat → List Nat) : List Nat → BState 
 
 theorem site_run (N : Nat) (un : Int) (adj : Nat → List Nat) (hadj : ∀ v m, m ∈ adj v → m < N) :
     ∀ (vs occ : List Nat) (E : List (Nat × Nat)) (s : BState) (ρ d : Nat → Nat) (g n : Nat),
-    SiteOK N un s.1 → (∀ x, s.1 x ≠ un ↔ x ∈ occ) → Inv N E (alpha un s.1) ρ d g n → vs.Nodup → (∀ v ∈ vs, v < N ∧ v ∉ occ) →
+    SiteOK N un s.1 → (∀ x, s.1 x ≠ un ↔ x ∈ occ) → Inv N E (alpha un s.1) ρ d g n → SRel N un s.1 s.2.1 s.2.2 g n →
+    vs.Nodup → (∀ v ∈ vs, v < N ∧ v ∉ occ) →
     ∃ ρ' d' g' n', Inv N (siteEdges adj vs occ E) (alpha un (siteAll N un adj vs s).1) ρ' d' g' n' ∧
-      SiteOK N un (siteAll N un adj vs s).1 ∧ (∀ x, (siteAll N un adj vs s).1 x ≠ un ↔ (x ∈ occ ∨ x ∈ vs)) := by
+      SiteOK N un (siteAll N un adj vs s).1 ∧ (∀ x, (siteAll N un adj vs s).1 x ≠ un ↔ (x ∈ occ ∨ x ∈ vs)) ∧
+      SRel N un (siteAll N un adj vs s).1 (siteAll N un adj vs s).2.1 (siteAll N un adj vs s).2.2 g' n' := by
   intro vs
   induction vs with
-  | nil => intro occ E s ρ d g n ok ho inv _ _; exact ⟨ρ, d, g, n, inv, ok, fun x => by show s.1 x ≠ un ↔ _; simpa using ho x⟩
+  | nil => intro occ E s ρ d g n ok ho inv srel _ _; exact ⟨ρ, d, g, n, inv, ok, fun x => by show s.1 x ≠ un ↔ _; simpa using ho x, srel⟩
   | cons v vs ih =>
-    intro occ E s ρ d g n ok ho inv hnd hb
+    intro occ E s ρ d g n ok ho inv srel hnd hb
     obtain ⟨hv, hvo⟩ := hb v List.mem_cons_self
     have hun : s.1 v = un := by
       by_cases h : s.1 v = un
       · exact h
       · exact absurd ((ho v).1 h) hvo
-    obtain ⟨ok1, un1, ρ1, d1, g1, n1, inv1⟩ := occupySite_inv N un s.1 s.2.1 s.2.2 v (adj v) E ρ d g n ok hv hun (fun m hm => hadj v m hm) inv
+    obtain ⟨ok1, un1, ρ1, d1, g1, n1, inv1, srel1⟩ := occupySite_inv N un s.1 s.2.1 s.2.2 v (adj v) E ρ d g n ok hv hun (fun m hm => hadj v m hm) inv srel
     have hf : (adj v).filter (fun m => decide (m = v ∨ s.1 m ≠ un)) = (adj v).filter (fun m => decide (m = v ∨ m ∈ occ)) := by
       apply List.filter_congr; intro x _; simp only [ho x]
     rw [hf] at inv1
@@ -118,12 +121,12 @@ theorem site_run (N : Nat) (un : Int) (adj : Nat → List Nat) (hadj : ∀ v m, 
       · rintro (h | h) ⟨hc, hx⟩
         · exact hx h
         · exact (ho x).2 h hc
-    obtain ⟨ρ2, d2, g2, n2, inv2, ok2, ho2⟩ := ih (v :: occ) _ (occupySite (N + 1) un s.1 s.2.1 s.2.2 v (adj v)) ρ1 d1 g1 n1 ok1 ho1 inv1
+    obtain ⟨ρ2, d2, g2, n2, inv2, ok2, ho2, srel2⟩ := ih (v :: occ) _ (occupySite (N + 1) un s.1 s.2.1 s.2.2 v (adj v)) ρ1 d1 g1 n1 ok1 ho1 inv1 srel1
       (List.nodup_cons.1 hnd).2 (fun x hx => ⟨(hb x (List.mem_cons_of_mem _ hx)).1, fun h => by
         rcases List.mem_cons.1 h with h | h
         · exact (List.nodup_cons.1 hnd).1 (h ▸ hx)
         · exact (hb x (List.mem_cons_of_mem _ hx)).2 h⟩)
-    refine ⟨ρ2, d2, g2, n2, inv2, ok2, fun x => ?_⟩
+    refine ⟨ρ2, d2, g2, n2, inv2, ok2, fun x => ?_, srel2⟩
     rw [show siteAll N un adj (v :: vs) s = siteAll N un adj vs (occupySite (N + 1) un s.1 s.2.1 s.2.2 v (adj v)) from rfl, ho2 x]
     simp only [List.mem_cons]
     constructor
@@ -135,6 +138,9 @@ theorem site_run (N : Nat) (un : Int) (adj : Nat → List Nat) (hadj : ∀ v m, 
       · exact Or.inl (Or.inr h)
       · exact Or.inl (Or.inl h)
       · exact Or.inr h
+
+theorem srel_init (N : Nat) (un : Int) : SRel N un (fun _ => un) 0 0 1 N :=
+  ⟨by simp [unocc], rfl, Or.inl (fun _ => rfl)⟩
 
 /-- **site percolation, any occupation order**: after occupying the distinct sites `vs` of a network on `0..N-1` (neighbours
     given by `adj`), viewing the sites not yet occupied as singletons, there is a representative function with: same
@@ -151,10 +157,72 @@ theorem site_samples_true (N : Nat) (hN : 0 < N) (adj : Nat → List Nat) (hadj 
   intro un s
   have ok0 : SiteOK N un (fun _ => un) := ⟨rfl, fun x hx => absurd rfl hx, fun x hx => absurd rfl hx⟩
   have ha0 : alpha un (fun _ => un) = fun _ => -1 := by funext x; simp [alpha]
-  obtain ⟨ρ, d, g, n, inv, _, ho⟩ := site_run N un adj hadj vs [] [] ((fun _ => un), 0, 0) id (fun _ => 0) 1 N ok0
-    (fun x => by simp) (by rw [ha0]; exact init_inv N hN) hnd (fun v hv => ⟨hb v hv, by simp⟩)
+  obtain ⟨ρ, d, g, n, inv, _, ho, _⟩ := site_run N un adj hadj vs [] [] ((fun _ => un), 0, 0) id (fun _ => 0) 1 N ok0
+    (fun x => by simp) (by rw [ha0]; exact init_inv N hN) (srel_init N un) hnd (fun v hv => ⟨hb v hv, by simp⟩)
   refine ⟨fun x => by simpa using ho x, ρ, ?_⟩
   obtain ⟨r1, r2, _⟩ := reported N _ _ ρ d g n inv
   exact ⟨r1, r2⟩
+
+/-- **site percolation, the reported counters**: after occupying the distinct sites `vs`, `ncomponents` is the number of roots
+    among the occupied sites (one per component of the working network, which holds occupied sites only), and `gcc` is the size
+    of a largest component among them: it bounds the component of every occupied site, is attained by one of them, and is 0
+    while nothing is occupied. (Sizes are counted with the representative function of the working network's connectivity;
+    an unoccupied site is connected to nothing.) -/
+theorem site_counters_true (N : Nat) (hN : 0 < N) (adj : Nat → List Nat) (hadj : ∀ v m, m ∈ adj v → m < N) (vs : List Nat)
+    (hnd : vs.Nodup) (hb : ∀ v ∈ vs, v < N) :
+    let un : Int := N + 1
+    let s := siteAll N un adj vs ((fun _ => un), 0, 0)
+    s.2.2 = nroots N s.1 ∧
+    ∃ ρ : Nat → Nat,
+      (∀ a b, a < N → b < N → (ρ a = ρ b ↔ Conn (siteEdges adj vs [] []) a b)) ∧
+      (∀ v ∈ vs, (List.range N).countP (fun b => decide (ρ b = ρ v)) ≤ s.2.1) ∧
+      (vs = [] → s.2.1 = 0) ∧
+      (vs ≠ [] → ∃ v ∈ vs, (List.range N).countP (fun b => decide (ρ b = ρ v)) = s.2.1) := by
+  intro un s
+  have ok0 : SiteOK N un (fun _ => un) := ⟨rfl, fun x hx => absurd rfl hx, fun x hx => absurd rfl hx⟩
+  have ha0 : alpha un (fun _ => un) = fun _ => -1 := by funext x; simp [alpha]
+  have hun : 0 < un := by show (0 : Int) < N + 1; omega
+  obtain ⟨ρ, d, g, n, inv, ok, ho, srel⟩ := site_run N un adj hadj vs [] [] ((fun _ => un), 0, 0) id (fun _ => 0) 1 N ok0
+    (fun x => by simp) (by rw [ha0]; exact init_inv N hN) (srel_init N un) hnd (fun v hv => ⟨hb v hv, by simp⟩)
+  have ho' : ∀ x, s.1 x ≠ un ↔ x ∈ vs := fun x => by simpa using ho x
+  have inv : Inv N (siteEdges adj vs [] []) (alpha un s.1) ρ d g n := inv
+  have srel : SRel N un s.1 s.2.1 s.2.2 g n := srel
+  obtain ⟨r1, r2, r3, ⟨w, hw, hwe⟩, r5⟩ := reported N _ _ ρ d g n inv
+  have hempty : vs = [] → s.2.1 = 0 := by intro h; subst h; rfl
+  generalize s = S at *
+  refine ⟨?_, ρ, r1, ?_, hempty, ?_⟩
+  · have h1 := srel.cnt
+    rw [r5, nroots_alpha N un _ hun] at h1
+    omega
+  · intro v hv
+    have h1 := r3 v (hb v hv)
+    rcases srel.pos with h | h
+    · exact absurd (h v) ((ho' v).2 hv)
+    · have := srel.big
+      omega
+  · intro hne
+    obtain ⟨v0, hv0⟩ := List.exists_mem_of_ne_nil vs hne
+    have hpos : 1 ≤ S.2.1 := by
+      rcases srel.pos with h | h
+      · exact absurd (h v0) ((ho' v0).2 hv0)
+      · exact h
+    have hg : g = S.2.1 := by have := srel.big; omega
+    by_cases hwo : S.1 w = un
+    · -- the witness is an unoccupied singleton: the largest size is 1, and every occupied site attains it
+      have hsz := r2 w hw
+      have hrw : ρ w = w := inv.rep.self w (by unfold alpha; simp [hwo])
+      rw [hrw] at hsz
+      have ha : alpha un S.1 w = -1 := by unfold alpha; simp [hwo]
+      rw [ha] at hsz
+      have h1 : (List.range N).countP (fun b => decide (ρ b = ρ w)) = 1 := by rw [hrw]; simpa using hsz.symm
+      have hle := r3 v0 (hb v0 hv0)
+      have hge : 0 < (List.range N).countP (fun b => decide (ρ b = ρ v0)) := by
+        rw [List.countP_pos_iff]; exact ⟨v0, List.mem_range.2 (hb v0 hv0), by simp⟩
+      exact ⟨v0, hv0, by omega⟩
+    · exact ⟨w, (ho' w).1 hwo, by rw [hwe, hg]⟩
+
+/-- non-vacuity: the path 0–1–2–3, sites occupied in the order 1, 3, 0: two components, the largest of size 2 -/
+example : (siteAll 4 5 (fun v => if v = 0 then [1] else if v = 1 then [0, 2] else if v = 2 then [1, 3] else [2]) [1, 3, 0]
+    ((fun _ => 5), 0, 0)).2 = (2, 2) := by decide +kernel
 
 end C13
